@@ -42,3 +42,57 @@ contract(IX + '::array2slice', ['C05'], dict(arr=Arr('n', dtype='int')),
          canaries=[('negative stride: stop not moved past the last element', ('return slice(int(arr[0]), int(arr[-1]) - 1, step)', 'return slice(int(arr[0]), int(arr[-1]), step)'), 'post'),
                    ('only the first difference is checked', ('if np.all(diffs == step):', 'if True:'), 'post'),
                    ('last element 0 allowed with a negative stride', ('elif arr[-1] > 0:', 'elif arr[-1] >= 0:'), 'post')])
+
+
+# ---- Indexer.set_src_shape: the cached shaped instance never survives a change of the source shape ----------------
+# (the shaped instance holds flat positions computed for one shape; every index class answers as_array / flat /
+# indexed_src_shape through it).  _get_shapes (normalisation) and _check_bounds (may raise) are assumed.
+IX = 'openmdao/utils/indexer.py'
+
+
+def _shape_ghost(it, env, res):
+    it.ctx.ghost['new_shape'] = res[0]
+
+
+contract(IX + '::Indexer.set_src_shape', ['C05'],
+         dict(self=Obj('Indexer', _src_shape=OneOf(None, TupleT(Int(0, None))), _dist_shape=None, _flat_src=OneOf(None, True, False),
+                       _shaped_inst=OneOf(None, OpaqueT('cached_shaped_instance'))),
+              shape=TupleT(Int(0, None)), dist_shape=None),
+         ensures=['same_object(result, self)',
+                  "self._src_shape == ghost('new_shape')",
+                  # a cached shaped instance is kept only when the shape is the one it was built for
+                  "implies(self._shaped_inst is not None, old(self._src_shape) is not None and old(self._src_shape) == ghost('new_shape') and same_object(self._shaped_inst, old(self._shaped_inst)))",
+                  'self._flat_src is not None'],
+         may_raise=['IndexError', 'ValueError'],
+         exc_ensures=['self._src_shape is None and self._dist_shape is None'],
+         modifies=['self._src_shape', 'self._dist_shape', 'self._flat_src', 'self._shaped_inst'],
+         ghost_init={'new_shape': None},
+         assumed={'self._get_shapes': Assumed(returns=TupleT(TupleT(Int(0, None)), None), ghost=_shape_ghost, note='normalises an int / tuple shape to a tuple (and the distributed shape)'),
+                  'self._check_bounds': Assumed(may_raise=['IndexError'], note='raises when the index does not fit the new shape')},
+         name=IX + '::Indexer.set_src_shape',
+         canaries=[('cache reset only when the bounds check fails', ("                raise\n            self._shaped_inst = None", "                self._shaped_inst = None\n                raise"), 'post')])
+
+
+# ---- IntIndexer.shaped_instance / SliceIndexer.shaped_instance: the cached instance is returned if there is one;
+# otherwise the index is normalised against the first source dimension exactly as NumPy does (negative int: + n;
+# slice: slice.indices(n)) and the new shaped instance carries the parent's shape attributes ----------------------
+def _int_ix(cached):
+    return Obj('IntIndexer', _idx=Int(), _src_shape=OneOf(None, TupleT(Int(1, None))), _dist_shape=None, _flat_src=OneOf(True, False),
+               _shaped_inst=OpaqueT('cached_shaped_instance') if cached else None)
+
+
+contract(IX + '::IntIndexer.shaped_instance', ['C05'], dict(self=_int_ix(True)),
+         ensures=['same_object(result, old(self._shaped_inst))', 'same_object(self._shaped_inst, old(self._shaped_inst))'],
+         modifies=[], name=IX + '::IntIndexer.shaped_instance[cached]')
+
+contract(IX + '::IntIndexer.shaped_instance', ['C05'], dict(self=_int_ix(False)),
+         requires=['implies(self._src_shape is not None, -self._src_shape[0] <= self._idx and self._idx < self._src_shape[0])'],   # (_check_bounds ran in set_src_shape)
+         ensures=['implies(self._src_shape is None, result is None and self._shaped_inst is None)',
+                  'implies(self._src_shape is not None, same_object(result, self._shaped_inst))',
+                  # NumPy: a negative index counts from the end of the first dimension
+                  'implies(self._src_shape is not None, result._idx == (self._idx if self._idx >= 0 else self._idx + self._src_shape[0]) and 0 <= result._idx and result._idx < self._src_shape[0])',
+                  'implies(self._src_shape is not None, result._src_shape == self._src_shape and result._flat_src == self._flat_src and result._dist_shape is None)',
+                  'self._idx == old(self._idx)'],
+         modifies=['self._shaped_inst'], inline={'ShapedIntIndexer', 'Indexer', '__init__', '_set_attrs'}, name=IX + '::IntIndexer.shaped_instance[not cached]',
+         canaries=[('negative index normalised against the wrong length', ('ShapedIntIndexer(self._idx + self._src_shape[0])', 'ShapedIntIndexer(self._idx + self._src_shape[0] - 1)'), 'post'),
+                   ('shape attributes not copied to the shaped instance', ('return self._shaped_inst._set_attrs(self)', 'return self._shaped_inst'), 'post')])
